@@ -1239,3 +1239,138 @@ Proof.
   intros H. rewrite (reflow_same_html o L (norm t) (wwf_norm (wdepth t) t (le_n _) H)).
   destruct (html_norm_all (wdepth t) t (le_n _) o false) as [E _]. rewrite E. reflexivity.
 Qed.
+
+(* ---- normalize_whitespace=True WITHOUT a line limit (C09): the renderer writes norm t ---- *)
+Section RNone.
+  Let o := mkMopts true.
+
+  Lemma item_render_norm_none mk pad0 chtoks inner lo (blank : bool) : marker_ok mk -> good_b inner = true ->
+    flat_map (block_lines o None) chtoks = map bare inner ->
+    block_lines o None (ListItem (mkItem (marker_str mk) 0 (Z.of_nat (length (marker_str mk) + pad0)) lo) (chtoks ++ (if blank then [BlankLine] else []))) =
+    map bare (item_lines mk 1 inner) ++ (if blank then [[]] else []).
+  Proof.
+    intros Hmk Hg E.
+    destruct (good_lines _ Hg) as (c0 & body0 & rest & El & Hc0 & _ & _ & _ & _ & _).
+    destruct (marker_first mk Hmk) as (m0 & mr & Em & Hm0).
+    cbn [block_lines sub_opt normalize_ws i_prepend i_indentation i_leader]. unfold o. cbn [normalize_ws].
+    unfold o in E. replace (len (marker_str mk) + 1) with (Z.of_nat (length (marker_str mk) + 1)) by (unfold len; lia).
+    rewrite flat_map_app, E, El.
+    assert (Eb : flat_map (block_lines (mkMopts true) None) (if blank then [BlankLine] else []) = map bare (if blank then [SBlank] else [])) by (destruct blank; reflexivity).
+    rewrite Eb, <- map_app. cbn [map or_blank bare repeat app].
+    unfold item_lines. rewrite Em.
+    set (w := (length (m0 :: mr) + 1)%nat).
+    assert (Ew : spaces (Z.of_nat w) = repeat 32 w) by (unfold spaces; rewrite Nat2Z.id; reflexivity).
+    assert (Ep : spaces (Z.of_nat w - len (m0 :: mr) - 0) = repeat 32 1) by (unfold spaces, len, w; f_equal; lia).
+    unfold prefix_lines. rewrite Ew. destruct w as [|w'] eqn:Ew0; [unfold w in Ew0; cbn [length] in Ew0; lia|].
+    cbn [repeat prefix_from]. change (32 :: repeat 32 w') with (repeat 32 (S w')).
+    rewrite (prefix_from_false_embed _ (S w') (rest ++ if blank then [SBlank] else []) (Nat.lt_0_succ _)).
+    rewrite Ep. cbn [spaces Z.to_nat repeat app map bare nonempty orb].
+    rewrite !map_app. destruct blank; cbn [map embed_s bare]; rewrite <- ?app_assoc; cbn [app]; rewrite ?app_nil_r; reflexivity.
+  Qed.
+
+  Definition RN (t : wtree) : Prop := block_lines o None (tok_of true (to_f t)) = map bare (spell (to_f (norm t))).
+
+  Lemma rn_seq ts ts' : Forall2 (fun t t' => block_lines o None (tok_of true t) = map bare (spell t')) ts ts' -> ts <> [] ->
+    flat_map (block_lines o None) (tok_seq true ts) = map bare (join_blank (map spell ts')).
+  Proof.
+    intros H Hne. rewrite bare_join.
+    assert (G : forall ts ts', Forall2 (fun t t' => block_lines o None (tok_of true t) = map bare (spell t')) ts ts' ->
+                flat_map (fun y => [] :: block_lines o None (tok_of true y)) ts = flat_map (fun y => [] :: map bare y) (map spell ts')).
+    { induction 1 as [|t t' r r' E _ IH]; [reflexivity|]. cbn [flat_map map]. rewrite E, IH. reflexivity. }
+    destruct H as [|t t' r r' E Hr]; [contradiction|]. cbn [map].
+    assert (F : forall r0, flat_map (block_lines o None) (match r0 with [] => [] | _ => blank_tok true ++ tok_seq true r0 end) =
+                           flat_map (fun y => [] :: block_lines o None (tok_of true y)) r0).
+    { induction r0 as [|y r0 IH]; [reflexivity|]. cbn [blank_tok app flat_map block_lines tok_seq]. f_equal. f_equal. exact IH. }
+    change (tok_seq true (t :: r)) with (tok_of true t :: match r with [] => [] | _ => blank_tok true ++ tok_seq true r end).
+    cbn [flat_map]. rewrite E. f_equal. rewrite F. apply G. exact Hr.
+  Qed.
+
+  Lemma rnkids_render ts : ts <> [] -> Forall RN ts ->
+    flat_map (block_lines o None) (tok_seq true (map to_f ts)) = map bare (join_blank (map spell (map to_f (map norm ts)))).
+  Proof.
+    intros Hne H. apply rn_seq; [|destruct ts; [contradiction|discriminate]].
+    induction H as [|t r E _ IH]; [constructor|]. cbn [map]. constructor; [exact E|]. destruct r; [constructor|]. apply IH. discriminate.
+  Qed.
+
+  Lemma rnkids_good ts : wseq_ok ts = true -> forallb wwf ts = true -> good_b (join_blank (map spell (map to_f (map norm ts)))) = true.
+  Proof.
+    intros Hs Hall.
+    assert (Hch : Forall Wok (map norm ts)).
+    { apply Forall_forall. intros x Hx. apply in_map_iff in Hx as (t & <- & Ht). rewrite forallb_forall in Hall.
+      pose proof (wwf_norm (wdepth t) t (le_n _) (Hall t Ht)) as W. apply (wok_all (wdepth (norm t)) _ (le_n _) W). }
+    assert (Hs' : wseq_ok (map norm ts) = true) by (rewrite (wseq_reflow norm ts is_item_norm); exact Hs).
+    apply (children_ok _ Hs' Hch).
+  Qed.
+
+  Lemma rn_all : forall f t, (wdepth t <= f)%nat -> wwf t = true -> RN t.
+  Proof.
+    assert (Leaf : forall t, match t with WQuote _ | WItem _ _ _ | WMore _ _ _ _ _ => false | _ => true end = true -> wwf t = true -> RN t).
+    { intros t Hl Hw. unfold RN. assert (En : norm t = t) by (destruct t; try discriminate; reflexivity). rewrite En.
+      pose proof (wwf_fragment t Hw) as Wf. pose proof (rt_all (depth (to_f t)) (to_f t) (le_n _) Wf) as R. unfold RT, md_lines in R. rewrite <- R.
+      unfold o. apply leaf_any_opts.
+      destruct t as [gs|ch n content|lv c body|c n|ts|mk pad ts|mk pad ts bl next]; try discriminate; cbn [to_f tok_of]; try exact I.
+      unfold para_f. destruct (map (join SP) gs) as [|[|? ?] ?]; exact I. }
+    assert (Kids : forall f, (forall t, (wdepth t <= f)%nat -> wwf t = true -> RN t) ->
+                   forall ts n, (S (fold_right (fun t m => Nat.max (wdepth t) m) 0%nat ts) <= S n)%nat -> (n <= f)%nat -> forallb wwf ts = true -> Forall RN ts).
+    { intros f IH ts n Hd Hn Hall. apply Forall_forall. intros t Ht. rewrite forallb_forall in Hall.
+      apply IH; [pose proof (wdepth_children t ts n Ht Hd); lia|apply Hall; exact Ht]. }
+    induction f as [|f IH].
+    - intros t Hd Hw. destruct t as [gs|ch n content|lv c body|c n|ts|mk pad ts|mk pad ts bl next]; try (cbn [wdepth] in Hd; lia); (apply Leaf; [reflexivity|exact Hw]).
+    - intros t. induction t as [gs|ch n content|lv c body|c n|ts|mk pad ts|mk pad ts bl next IHn]; intros Hd Hw; try (apply Leaf; [reflexivity|exact Hw]).
+      + cbn [wwf] in Hw. apply andb_true_iff in Hw as [Hs Hall]. cbn [wdepth] in Hd.
+        assert (Hne : ts <> []) by (destruct ts; [discriminate|discriminate]).
+        pose proof (rnkids_render ts Hne (Kids f IH ts f Hd (le_n _) Hall)) as E. unfold o in E.
+        unfold RN. cbn [to_f norm tok_of block_lines sub_opt spell].
+        change ((fix seq (ts0 : list ftree) : list tok := match ts0 with [] => [] | t :: r => tok_of true t :: match r with [] => [] | _ :: _ => blank_tok true ++ seq r end end) (map to_f ts)) with (tok_seq true (map to_f ts)).
+        unfold o. rewrite E. apply prefix_quote.
+      + cbn [wwf] in Hw. repeat rewrite andb_true_iff in Hw. destruct Hw as [[[[[Hmk Hp1] Hp4] Hs] Hall] Ham]. cbn [wdepth] in Hd.
+        assert (Hne : ts <> []) by (destruct ts; [discriminate|discriminate]).
+        pose proof (rnkids_render ts Hne (Kids f IH ts f Hd (le_n _) Hall)) as E.
+        unfold RN. cbn [to_f norm tok_of spell].
+        change ((fix seq (ts0 : list ftree) : list tok := match ts0 with [] => [] | t :: r => tok_of true t :: match r with [] => [] | _ :: _ => blank_tok true ++ seq r end end) (map to_f ts)) with (tok_seq true (map to_f ts)).
+        pose proof (item_render_norm_none mk pad (tok_seq true (map to_f ts)) _ (negb true && (1 <? Z.of_nat (length (map to_f ts)))) false
+                      (marker_ok_reflect mk Hmk) (rnkids_good ts Hs Hall) E) as RI. rewrite !app_nil_r in RI.
+        cbn [block_lines flat_map]. rewrite app_nil_r. exact RI.
+      + cbn [wwf] in Hw. repeat rewrite andb_true_iff in Hw. destruct Hw as [[[[[[[[Hmk Hp1] Hp4] Hs] Hall] Ham] Hin] Hk] Hwn]. cbn [wdepth] in Hd.
+        assert (Hne : ts <> []) by (destruct ts; [discriminate|discriminate]).
+        assert (Hd' : (S (fold_right (fun t m => Nat.max (wdepth t) m) 0%nat ts) <= S f)%nat) by lia.
+        pose proof (rnkids_render ts Hne (Kids f IH ts f Hd' (le_n _) Hall)) as E.
+        specialize (IHn ltac:(lia) Hwn). unfold RN in IHn |- *.
+        destruct (wok_all (wdepth next) next (le_n _) Hwn) as (Wn & _ & _).
+        assert (Hin' : is_item (to_f next) = true) by (rewrite is_item_to_f; exact Hin).
+        destruct (tok_of_chain_is_list true (to_f next) Hin' Wn) as (s2 & lo2 & items & E2).
+        cbn [to_f norm tok_of spell]. rewrite E2 in *.
+        change ((fix seq (ts0 : list ftree) : list tok := match ts0 with [] => [] | t :: r => tok_of true t :: match r with [] => [] | _ :: _ => blank_tok true ++ seq r end end) (map to_f ts)) with (tok_seq true (map to_f ts)).
+        pose proof (item_render_norm_none mk pad (tok_seq true (map to_f ts)) _ (if bl then negb true else negb true && (1 <? Z.of_nat (length (map to_f ts)))) bl
+                      (marker_ok_reflect mk Hmk) (rnkids_good ts Hs Hall) E) as RI. cbn [blank_tok].
+        match goal with |- block_lines ?oo None (List ?s ?l (?x :: items)) = _ =>
+          change (block_lines oo None (List s l (x :: items))) with (block_lines o None x ++ block_lines o None (List s2 lo2 items)) end.
+        rewrite RI, IHn. rewrite !map_app. destruct bl; cbn [map bare app]; rewrite <- ?app_assoc; reflexivity.
+  Qed.
+End RNone.
+
+Lemma norm_twice : forall f t, (wdepth t <= f)%nat -> norm (norm t) = norm t.
+Proof.
+  assert (Kids : forall f, (forall t, (wdepth t <= f)%nat -> norm (norm t) = norm t) ->
+                 forall ts n, (S (fold_right (fun t m => Nat.max (wdepth t) m) 0%nat ts) <= S n)%nat -> (n <= f)%nat -> map norm (map norm ts) = map norm ts).
+  { intros f IH ts n Hd Hn. rewrite map_map. apply map_ext_in. intros t Ht. apply IH. pose proof (wdepth_children t ts n Ht Hd). lia. }
+  induction f as [|f IH].
+  - intros t Hd. destruct t; try (cbn [wdepth] in Hd; lia); reflexivity.
+  - intros t. induction t as [gs|ch n content|lv c body|c n|ts|mk pad ts|mk pad ts bl next IHn]; intros Hd; try reflexivity; cbn [wdepth] in Hd; cbn [norm].
+    + rewrite (Kids f IH ts f Hd (le_n _)). reflexivity.
+    + rewrite (Kids f IH ts f Hd (le_n _)). reflexivity.
+    + rewrite (Kids f IH ts f ltac:(lia) (le_n _)), (IHn ltac:(lia)). reflexivity.
+Qed.
+
+(* MarkdownRenderer(normalize_whitespace=True), no line limit: the text of norm t, a tree of the fragment with the SAME HTML; normalizing
+   again changes nothing *)
+Theorem normalize_round_trip o t : wwf t = true ->
+  render_md (mkMopts true) None (fst (fst (parse_lines cfg_markdown (text_of (spell (to_f t)))))) = concat (text_of (spell (to_f (norm t)))) /\
+  wwf (norm t) = true /\ wf_b (to_f (norm t)) = true /\ html_f o false (to_f (norm t)) = html_f o false (to_f t) /\ norm (norm t) = norm t.
+Proof.
+  intros H. pose proof (wwf_norm (wdepth t) t (le_n _) H) as Wn. split; [|split; [exact Wn|split; [apply wwf_fragment; exact Wn|split]]].
+  - rewrite (fragment_document_markdown (to_f t) (wwf_fragment t H)). unfold render_md. cbn [is_block block_lines flat_map]. rewrite app_nil_r.
+    rewrite (rn_all (wdepth t) t (le_n _) H). apply render_lines_bare.
+  - apply (html_norm_all (wdepth t) t (le_n _) o false).
+  - apply (norm_twice (wdepth t) t (le_n _)).
+Qed.
